@@ -15,7 +15,9 @@ if ! go test -vet=off -count=1 ./... >/tmp/try_mutant_suite.log 2>&1; then echo 
 cd /verif
 # what this run writes (replay files, evidence) describes the changed tree: none of it stays
 ls replays > /tmp/try_mutant_replays.before 2>/dev/null
-cleanup_verif() { ls /verif/replays | grep -vxFf /tmp/try_mutant_replays.before | sed 's|^|/verif/replays/|' | xargs -r rm -f; git -C /verif checkout -q -- evidence replays 2>/dev/null; }
+EVSAVE=$(mktemp -d /tmp/try_mutant_evidence.XXXXXX); cp -a evidence/. "$EVSAVE"/
+# evidence goes back to what it was before this run (not to the committed version: a fresh clean sweep must survive)
+cleanup_verif() { ls /verif/replays | grep -vxFf /tmp/try_mutant_replays.before | sed 's|^|/verif/replays/|' | xargs -r rm -f; git -C /verif checkout -q -- replays 2>/dev/null; cp -a "$EVSAVE"/. /verif/evidence/ 2>/dev/null; rm -rf "$EVSAVE"; }
 trap 'git -C /repo checkout -- . ; git -C /repo clean -fdq trzsz 2>/dev/null; cleanup_verif' EXIT
 timeout 1500 ./bin/check "$ID" --no-minimise "$@" 2>&1 | grep -E "^(VIOLATION|KNOWN-FINDING|check )" | cut -c1-300 | tail -6
 echo "exit=${PIPESTATUS[0]}"
